@@ -65,6 +65,9 @@ MODEL_FAULTS = [
     ('units-name-duplicated', '<units name="zu"/><units name="zu"/>', ['UNITS_NAME_UNIQUE']),
     ('units-named-like-a-standard-unit', '<units name="second"/>', ['UNITS_STANDARD']),
     ('unit-prefix-invalid', '<units name="zu"><unit units="second" prefix="wrong"/></units>', ['UNIT_ATTRIBUTE_PREFIX_VALUE']),
+    ('unit-prefix-invalid-on-user-units', '<units name="zl"><unit units="metre" prefix="milli"/></units><units name="zu"><unit units="zl" prefix="wolf" exponent="2"/></units>', ['UNIT_ATTRIBUTE_PREFIX_VALUE']),
+    ('unit-prefix-out-of-range-on-user-units', '<units name="zl"><unit units="metre"/></units><units name="zu"><unit units="zl" prefix="99999999999999999999"/></units>', ['UNIT_ATTRIBUTE_PREFIX_VALUE']),
+    ('unit-prefix-out-of-range', '<units name="zu"><unit units="second" prefix="99999999999999999999"/></units>', ['UNIT_ATTRIBUTE_PREFIX_VALUE']),
     ('unit-reference-missing', '<units name="zu"><unit units="no_such_units"/></units>', ['UNIT_UNITS_REFERENCE']),
     ('units-cyclic', '<units name="zca"><unit units="zcb"/></units><units name="zcb"><unit units="zca"/></units>', ['UNIT_UNITS_CIRCULAR_REFERENCE']),
     ('units-name-not-an-identifier', '<units name="1u"/>', ['UNITS_NAME_VALUE', 'DATA_REPR_IDENTIFIER_BEGIN_EURO_NUM']),
